@@ -36,6 +36,8 @@ var pool = []def{
 	{"AB", `ab`, true, false}, {"ABC", `ab|c`, false, false}, {"ABD", `ab|d`, false, false}, {"ABE", `ab|ee`, false, false},
 	// patterns that also match the empty text (the start state is accepting): alone, with each other, with literals
 	{"ASTAR", `a*`, false, false}, {"BSTAR", `b*`, false, false}, {"OPTXY", `(xy)?`, false, false}, {"DIGS", `[0-9]*`, false, false},
+	// anchored patterns: the anchors are not characters
+	{"CARET", `^if`, false, false}, {"DOLLAR", `in$`, false, false}, {"BOTH", `^=+$`, false, false},
 	{"ID", `$ID`, false, true}, {"NUMBER", `$NUMBER`, false, true}, {"STRING", `$STRING`, false, true}, {"WS", `$WS`, false, true}, {"COMMENT", `$COMMENT`, false, true},
 }
 
@@ -322,7 +324,7 @@ func main() {
 		r.Finish()
 	}
 	if r.Fork(16) {
-		r.Set("rule", fmt.Sprintf("every subset of up to the size bound of a pool of %d definitions (9 literals incl. escaped quote/backslash/slash, 12 patterns of which 4 also match the empty text, 5 predefined patterns; every relation: disjoint, prefix, nested, identical language, literal inside pattern, partial overlap), each given to Spec.DFA directly and through spec.Parse; per set the product of the returned automaton with the reference automata of all definitions is explored; non-trivial = product with > 1 state; distinct by set+route", len(pool)))
+		r.Set("rule", fmt.Sprintf("every subset of up to the size bound of a pool of %d definitions (9 literals incl. escaped quote/backslash/slash, 15 patterns of which 4 also match the empty text and 3 are anchored, 5 predefined patterns; every relation: disjoint, prefix, nested, identical language, literal inside pattern, partial overlap), each given to Spec.DFA directly and through spec.Parse; per set the product of the returned automaton with the reference automata of all definitions is explored; non-trivial = product with > 1 state; distinct by set+route", len(pool)))
 		r.Set("evaluations", r.Get("sets"))
 		r.Set("traces_validated_against_impl", r.Get("sets"))
 		r.Finish()
